@@ -143,7 +143,15 @@ def encode_case(ctx, case):
         ctx.fail('encode', 'S1-size', case, sz, len(want))
 
 
-COMPONENTS = {'decode': decode_case, 'encode': encode_case}
+def fuzz_decode_case(ctx, case):
+    """raw fuzzer input: first byte selects the type, rest is the stream"""
+    b = case['input']
+    decode_case(ctx, {'type': 'VarLong' if b[0] & 1 else 'VarInt',
+                      'data': bytes(b[1:])})
+
+
+COMPONENTS = {'decode': decode_case, 'encode': encode_case,
+              'fuzz_decode': fuzz_decode_case}
 
 
 # ------------------------------------------------------------------- tasks
@@ -232,9 +240,18 @@ def t_encode_random(ctx, n):
     hyp(ctx, 'encode_random', strat, body, n)
 
 
+def t_fuzz(ctx, runs):
+    from vlib import fuzzrun
+    fuzzrun.campaign(ctx, 'varint', 'fuzz_decode', runs, seeds=[
+        b'\x00\x7f', b'\x01\xff\xff\xff\xff\x0f',
+        b'\x00\x80\x80\x80\x80\x80\x80', b'\x01' + b'\xff' * 11])
+
+
 def tasks(tier):
     q = tier == 'quick'
     tl = []
+    if not q:
+        tl.append(('fuzz_empty_corpus', t_fuzz, dict(runs=1500000)))
     maxlen = 2 if q else 3
     for length in range(0, maxlen + 1):
         if length == 0:
